@@ -127,8 +127,8 @@ def run(ctx, model=None):
     N = 300 if ctx.quick() else 8000
     for k in range(N):
         r = k % 6
-        g = gen.stopping_game(rng, extra_finals=0.25) if r in (0, 1) else gen.free_game(rng) if r in (2, 3) else \
-            gen.slow_cycle_game(rng) if r == 4 else tie_game(rng)
+        g = gen.stopping_game(rng, extra_finals=0.25) if r == 0 else gen.layered_tie_game(rng) if r == 1 else \
+            gen.free_game(rng) if r in (2, 3) else gen.slow_cycle_game(rng) if r == 4 else tie_game(rng)
         check_case(ctx, g, model)
         if ctx.time_left() < 0:
             return
